@@ -3490,3 +3490,59 @@ func (b *B) fullScanDown(rule, construct, where string, lfc *FC, hdr *ssa.BasicB
 	b.R.OK(rule, construct, where, "visits every index "+clip(n.String(), 40)+"-1..0 once, in descending order")
 	return true
 }
+
+// TripCount: the number of iterations of the top-tested counting loop headed
+// by hdr, before clamping at 0 (the loop runs max(0, count) times): there is
+// one integer header phi k in the loop's condition, k advances by +1 or -1
+// per iteration, the condition is a comparison L < R or L <= R whose slack
+// R-L shrinks by exactly 1 per iteration, and the loop cannot be left from
+// inside an iteration. Ascending (`i := a; i < b; i++` → b-a), descending
+// (`left := c; left > 0; left--` → c) and inclusive bounds alike.
+func (b *B) TripCount(lfc *FC, hdr *ssa.BasicBlock) (count *RF, msg string) {
+	s := b.X.S
+	l, cond, guard, msg := b.loopGuard(lfc, hdr)
+	if msg != "" {
+		return nil, msg
+	}
+	if b.rotated {
+		return nil, "bottom-tested loop"
+	}
+	ca := cond.SingleAtom()
+	if ca == nil || (ca.Name != "cmp<" && ca.Name != "cmp<=") {
+		return nil, "the loop condition is not an order comparison: " + clip(cond.String(), 100)
+	}
+	var k *RF
+	for _, ph := range lfc.loopPhis(cond) {
+		pa := ph.SingleAtom()
+		if pa == nil || b.X.phiOf[pa.ID] == nil || b.X.phiOf[pa.ID].Block() != hdr {
+			continue
+		}
+		if k != nil {
+			return nil, "the loop condition mentions several loop-carried values"
+		}
+		k = ph
+	}
+	if k == nil {
+		return nil, "the loop condition mentions no loop counter"
+	}
+	if !isIntType(b.X.phiOf[k.SingleAtom().ID].Type()) {
+		return nil, "the loop counter is not an integer"
+	}
+	ki, kn := recurrenceOrNil(lfc, k)
+	if ki == nil {
+		return nil, "the loop counter has no recurrence"
+	}
+	d := ca.Args[1].Sub(ca.Args[0])
+	kid := k.SingleAtom().ID
+	if !d.Subst(map[AtomID]*RF{kid: kn}).Sub(d).Equal(s.Int(-1)) {
+		return nil, "the bound's slack does not shrink by exactly 1 per iteration"
+	}
+	if m := b.leftEarly(lfc, l, guard); m != "" {
+		return nil, m
+	}
+	count = d.Subst(map[AtomID]*RF{kid: ki})
+	if ca.Name == "cmp<=" {
+		count = count.Add(s.Int(1))
+	}
+	return count, ""
+}
